@@ -8,7 +8,9 @@ legal encoder choice: run length, run splitting, literal versus repeat, escape u
 Proved: run-length MGE (`mge_rle_transparent`), squashed VEF 320x200x16 (`vef_squashed_transparent_16`,
 through `unsq_groups` for one record and `vefRecords_rows` for the file), escape-coded RAT for the
 images the decoder can show at all (`rat_transparent_partial`; the exclusion is the known finding,
-with the kernel-checked witness `rat_low_nibble_witness`).  Not proved: CM3 line coding.
+with the kernel-checked witness `rat_low_nibble_witness`), and CM3 (`cm3Line_packed`: one line coded
+with any mixture of left / up / literal bytes; `cm3_compressed_transparent`: whole files, raw and
+coded lines mixed, the line buffer carried across lines and pages).
 -/
 namespace CocoVerif.Props.C17
 open CocoVerif.Model.Img CocoVerif.Spec.Img CocoVerif.Props.Img
@@ -190,5 +192,259 @@ theorem rat_low_nibble_witness :
     ratDump (List.range 16) 0x19 = .ok (colour 1 ++ colour 1) ∧ byteOut (List.range 16) 0x19 = colour 1 ++ colour 9 := by
   constructor <;> rfl
 
+
+/-! ### CM3 compressed lines -/
+
+/-- how the encoder codes one byte of a line: copy of the byte to its left (the buffer wraps: for the
+first byte that is the last byte of the previous line), copy of the byte above, or a literal -/
+inductive Choice | left | up | lit
+  deriving DecidableEq
+
+/-- the line buffer while byte `x` is decoded: the new line up to `x`, the line above from `x` on -/
+def curBuf (row lin : List Nat) (x : Nat) : List Nat := row.take x ++ lin.drop x
+
+def notLeft (ch : Nat → Choice) (i : Nat) : Bool := ch i != Choice.left
+
+/-- number of bytes before `x` that are not coded as `left` (each takes one bit of the second mask) -/
+def rank (ch : Nat → Choice) (x : Nat) : Nat := ((List.range x).filter (notLeft ch)).length
+
+/-- the literal bytes of the line from byte `x` on, in stream order -/
+def litsFrom (ch : Nat → Choice) (row : List Nat) (x : Nat) : Nat → List Nat
+  | 0 => []
+  | k + 1 => (if ch x = Choice.lit then [row.getD x 0] else []) ++ litsFrom ch row (x + 1) k
+
+/-- a valid coding of `row` over the previous line `lin`: every `left` / `up` choice is a true copy,
+the first mask has bit `x` clear exactly for `left`, the second mask has one bit per other byte,
+clear exactly for `up` -/
+structure ValidLine (ch : Nat → Choice) (row lin b1 b2 : List Nat) : Prop where
+  rowLen : row.length = 160
+  linLen : lin.length = 160
+  bytes : ∀ v ∈ row, v < 256
+  copyLeft : ∀ x, x < 160 → ch x = Choice.left → row.getD x 0 = (curBuf row lin x).getD ((x + 159) % 160) 0
+  copyUp : ∀ x, x < 160 → ch x = Choice.up → row.getD x 0 = lin.getD x 0
+  mask1 : ∀ x, x < 160 → bufBit b1 x = some (if ch x = Choice.left then 0 else 1)
+  mask2 : ∀ x, x < 160 → ch x ≠ Choice.left → bufBit b2 (rank ch x) = some (if ch x = Choice.up then 0 else 1)
+
+theorem rank_succ (ch : Nat → Choice) (x : Nat) :
+    rank ch (x + 1) = rank ch x + (if ch x = Choice.left then 0 else 1) := by
+  simp only [rank, List.range_succ, List.filter_append, List.length_append]
+  by_cases h : ch x = Choice.left
+  · simp [List.filter, notLeft, h]
+  · have hb : (ch x == Choice.left) = false := by simpa using h
+    simp [List.filter, notLeft, h, bne, hb]
+
+theorem curBuf_step (row lin : List Nat) (x : Nat) (hr : row.length = 160) (hl : lin.length = 160) (hx : x < 160) :
+    (curBuf row lin x).set x (row.getD x 0) = curBuf row lin (x + 1) := by
+  apply List.ext_getElem?
+  intro i
+  simp only [curBuf, List.getElem?_set, List.length_append, List.length_take, List.length_drop]
+  by_cases hi : x = i
+  · subst hi
+    have h1 : x < min x row.length + (lin.length - x) := by omega
+    simp only [if_true, h1]
+    rw [List.getElem?_append_left (by simp; omega), List.getElem?_take]
+    simp [List.getD_eq_getElem?_getD, List.getElem?_eq_getElem (by omega : x < row.length)]
+  · simp only [hi, if_false]
+    by_cases hlt : i < x
+    · rw [List.getElem?_append_left (by simp; omega), List.getElem?_append_left (by simp; omega)]
+      simp [List.getElem?_take, hlt, (by omega : i < x + 1)]
+    · have hgt : x < i := by omega
+      rw [List.getElem?_append_right (by simp; omega), List.getElem?_append_right (by simp; omega)]
+      simp only [List.length_take, List.getElem?_drop]
+      have e1 : min x row.length = x := by omega
+      have e2 : min (x + 1) row.length = x + 1 := by omega
+      rw [e1, e2]
+      congr 1
+      omega
+
+/-- the decoder on bytes `x .. 159` of a validly coded line -/
+theorem cm3Packed_valid (pal : List Nat) (hpal : pal.length = 16) (ch : Nat → Choice) (row lin b1 b2 : List Nat)
+    (hv : ValidLine ch row lin b1 b2) :
+    ∀ (k x : Nat) (rest : List Nat), x + k = 160 →
+      cm3Packed pal b1 b2 k x (rank ch x) (curBuf row lin x) (litsFrom ch row x k ++ rest)
+        = .ok (bytesOut pal (row.drop x), row, rest)
+  | 0, x, rest, hk => by
+      have hx : x = 160 := by omega
+      subst hx
+      have h1 : curBuf row lin 160 = row := by
+        unfold curBuf
+        rw [List.take_of_length_le (by rw [hv.rowLen]; exact Nat.le_refl _),
+            List.drop_of_length_le (by rw [hv.linLen]; exact Nat.le_refl _), List.append_nil]
+      have h2 : row.drop 160 = [] := List.drop_of_length_le (by rw [hv.rowLen]; exact Nat.le_refl _)
+      simp [cm3Packed, litsFrom, h1, h2, bytesOut, pure, Except.pure]
+  | k + 1, x, rest, hk => by
+      have hx : x < 160 := by omega
+      have hrx : x < row.length := by rw [hv.rowLen]; exact hx
+      have hbyte : row.getD x 0 < 256 := by
+        rw [List.getD_eq_getElem?_getD, List.getElem?_eq_getElem hrx]
+        exact hv.bytes _ (List.getElem_mem hrx)
+      have hdump := dumpByte_byteOut pal (row.getD x 0) hpal hbyte
+      have ih := cm3Packed_valid pal hpal ch row lin b1 b2 hv k (x + 1) rest (by omega)
+      have hdrop : row.drop x = row.getD x 0 :: row.drop (x + 1) := by
+        rw [List.getD_eq_getElem?_getD, List.getElem?_eq_getElem hrx, List.drop_eq_getElem_cons hrx]
+        rfl
+      have hstep := curBuf_step row lin x hv.rowLen hv.linLen hx
+      have hm1 := hv.mask1 x hx
+      rw [hdrop]
+      simp only [bytesOut, List.flatMap_cons]
+      rcases hc : ch x with _ | _ | _
+      · -- left
+        have hcopy := hv.copyLeft x hx hc
+        simp only [cm3Packed, hm1, hc, if_true, litsFrom, rank_succ, Nat.add_zero] at ih ⊢
+        simp only [reduceCtorEq, if_false, List.nil_append] at ih ⊢
+        simp only [bind, Except.bind, pure, Except.pure, ← hcopy, hdump, hstep, ih, bytesOut, ↓reduceIte, Nat.one_ne_zero]
+      · -- up
+        have hcopy := hv.copyUp x hx hc
+        have hm2 := hv.mask2 x hx (by rw [hc]; decide)
+        have hcur : (curBuf row lin x).getD x 0 = lin.getD x 0 := by
+          simp only [curBuf, List.getD_eq_getElem?_getD]
+          rw [List.getElem?_append_right (by simp; omega)]
+          simp [hv.rowLen, (by omega : min x 160 = x)]
+        simp only [cm3Packed, hm1, hm2, hc, litsFrom, rank_succ] at ih ⊢
+        simp only [reduceCtorEq, if_false, if_true, List.nil_append, Nat.one_ne_zero] at ih ⊢
+        simp only [bind, Except.bind, pure, Except.pure, hcur, ← hcopy, hdump, hstep, ih, bytesOut, ↓reduceIte, Nat.one_ne_zero]
+      · -- literal
+        have hm2 := hv.mask2 x hx (by rw [hc]; decide)
+        simp only [cm3Packed, hm1, hm2, hc, litsFrom, rank_succ] at ih ⊢
+        simp only [reduceCtorEq, if_false, if_true, Nat.one_ne_zero, List.cons_append, List.nil_append, read1] at ih ⊢
+        simp only [bind, Except.bind, pure, Except.pure, hdump, hstep, ih, bytesOut, ↓reduceIte, Nat.one_ne_zero]
+
+/-- **one compressed CM3 line**: control byte `contr < 128`, the 20-byte first mask, `contr` bytes of
+second mask, then the literals: whatever mixture of left / up / literal the encoder chose, the decoder
+yields the line's pixels and leaves the line as the new line buffer -/
+theorem cm3Line_packed (pal : List Nat) (hpal : pal.length = 16) (ch : Nat → Choice) (row lin b1 b2 rest : List Nat)
+    (hv : ValidLine ch row lin b1 b2) (h1 : b1.length = 20) (h2 : b2.length < 128) :
+    cm3Line pal lin (b2.length :: (b1 ++ b2 ++ litsFrom ch row 0 160 ++ rest))
+      = .ok (bytesOut pal row, row, rest) := by
+  have hr1 : readN 20 (b1 ++ (b2 ++ (litsFrom ch row 0 160 ++ rest))) = .ok (b1, b2 ++ (litsFrom ch row 0 160 ++ rest)) := by
+    rw [← h1]; exact readN_append b1 _
+  have hr2 : readN b2.length (b2 ++ (litsFrom ch row 0 160 ++ rest)) = .ok (b2, litsFrom ch row 0 160 ++ rest) :=
+    readN_append b2 _
+  have hp := cm3Packed_valid pal hpal ch row lin b1 b2 hv 160 0 rest (by omega)
+  have hc0 : curBuf row lin 0 = lin := by simp [curBuf]
+  have hr0 : rank ch 0 = 0 := by simp [rank]
+  rw [hc0, hr0] at hp
+  simp only [List.drop_zero] at hp
+  simp only [cm3Line, read1, h2, if_true, List.append_assoc, hr1, hr2, bind, Except.bind, pure, Except.pure, hp]
+
+
+/-! ### whole files: raw and compressed lines mixed, the line buffer carried across lines and pages -/
+
+inductive CLine
+  | raw (ctl : Nat) (px : List Nat)                                   -- control byte ≥ 128, 320 pixels
+  | packed (ch : Nat → Choice) (row b1 b2 : List Nat)                 -- the 160 bytes of the line and its masks
+
+/-- the 160 bytes a line stands for -/
+def CLine.bytes : CLine → List Nat
+  | .raw _ px => packNib px
+  | .packed _ row _ _ => row
+
+def CLine.enc : CLine → List Nat
+  | .raw ctl px => ctl :: packNib px
+  | .packed ch row b1 b2 => b2.length :: (b1 ++ b2 ++ litsFrom ch row 0 160)
+
+def CLine.ok (lin : List Nat) : CLine → Prop
+  | .raw ctl px => 128 ≤ ctl ∧ RowOK px
+  | .packed ch row b1 b2 => ValidLine ch row lin b1 b2 ∧ b1.length = 20 ∧ b2.length < 128
+
+def linesOK : List Nat → List CLine → Prop
+  | _, [] => True
+  | lin, l :: ls => l.ok lin ∧ linesOK l.bytes ls
+
+def lastBuf : List Nat → List CLine → List Nat
+  | lin, [] => lin
+  | _, l :: ls => lastBuf l.bytes ls
+
+def encLines (ls : List CLine) : List Nat := ls.flatMap CLine.enc
+def linesBytes (ls : List CLine) : List Nat := ls.flatMap CLine.bytes
+
+theorem cm3Line_any (pal : List Nat) (hpal : pal.length = 16) (lin rest : List Nat) (l : CLine) (h : l.ok lin) :
+    cm3Line pal lin (l.enc ++ rest) = .ok (bytesOut pal l.bytes, l.bytes, rest) := by
+  cases l with
+  | raw ctl px =>
+      have := cm3Line_raw pal lin px rest ctl hpal h.1 h.2
+      simp only [CLine.enc, CLine.bytes, List.cons_append]
+      rw [this, render_eq_bytesOut pal 160 px (by rw [h.2.1]) h.2.2]
+  | packed ch row b1 b2 =>
+      have := cm3Line_packed pal hpal ch row lin b1 b2 rest h.1 h.2.1 h.2.2
+      simpa [CLine.enc, CLine.bytes, List.append_assoc] using this
+
+theorem cm3Lines_valid (pal : List Nat) (hpal : pal.length = 16) :
+    ∀ (ls : List CLine) (lin rest : List Nat), linesOK lin ls →
+      cm3Lines pal ls.length lin (encLines ls ++ rest) = .ok (bytesOut pal (linesBytes ls), lastBuf lin ls, rest)
+  | [], lin, rest, _ => by simp [cm3Lines, encLines, linesBytes, lastBuf, bytesOut, pure, Except.pure]
+  | l :: ls, lin, rest, h => by
+      have h1 := cm3Line_any pal hpal lin (encLines ls ++ rest) l h.1
+      have ih := cm3Lines_valid pal hpal ls l.bytes rest h.2
+      simp only [encLines, List.flatMap_cons, List.append_assoc] at h1 ih ⊢
+      simp only [List.length_cons, cm3Lines, h1, ih, bind, Except.bind, pure, Except.pure, linesBytes, lastBuf,
+        List.flatMap_cons, bytesOut, List.flatMap_append]
+
+def pagesOK : List Nat → List (List CLine) → Prop
+  | _, [] => True
+  | lin, p :: ps => linesOK lin p ∧ pagesOK (lastBuf lin p) ps
+
+def encPages : List (List CLine) → List Nat
+  | [] => []
+  | p :: ps => p.length :: (encLines p ++ encPages ps)
+
+def pagesBytes (ps : List (List CLine)) : List Nat := ps.flatMap linesBytes
+
+theorem cm3Pages_valid (pal : List Nat) (hpal : pal.length = 16) :
+    ∀ (ps : List (List CLine)) (lin : List Nat), pagesOK lin ps →
+      cm3Pages pal ps.length lin (encPages ps) = .ok (bytesOut pal (pagesBytes ps))
+  | [], lin, _ => by simp [cm3Pages, pagesBytes, bytesOut, pure, Except.pure]
+  | p :: ps, lin, h => by
+      have h1 := cm3Lines_valid pal hpal p lin (encPages ps) h.1
+      have ih := cm3Pages_valid pal hpal ps (lastBuf lin p) h.2
+      simp only [encPages, List.length_cons, cm3Pages, read1, h1, ih, bind, Except.bind, pure, Except.pure,
+        pagesBytes, List.flatMap_cons, bytesOut, List.flatMap_append]
+
+/-- **CM3, any valid coding**: one or two pages, with or without pattern block, every line raw or
+coded against the byte to its left and the line above (the first line of a page against the last
+line of the page before), in any mixture: the decoder writes the pixels of the lines' bytes - the
+output of the raw form of the same picture (`C16.cm3_raw_roundtrip`). -/
+theorem cm3_compressed_transparent (typ : Nat) (pal anim pat : List Nat) (pages : List (List CLine))
+    (hpal : pal.length = 16) (hanim : anim.length = 12)
+    (hpat : pat.length = if getbit typ 0 ≠ 0 then 0 else 243)
+    (hpages : pages.length = getbit typ 7 + 1)
+    (hok : pagesOK (List.replicate 160 0) pages) :
+    cm3 (typ :: (pal ++ (anim ++ (pat ++ encPages pages))))
+      = .ok (ppmHeader "P6" 320 (pages.length * 192) ++ bytesOut pal (pagesBytes pages)) := by
+  have h16 := readN_append pal (anim ++ (pat ++ encPages pages))
+  rw [hpal] at h16
+  have h12 := readN_append anim (pat ++ encPages pages)
+  rw [hanim] at h12
+  have hpg := cm3Pages_valid pal hpal pages (List.replicate 160 0) hok
+  rw [hpages] at hpg
+  have hdrop : (if getbit typ 0 ≠ 0 then pat ++ encPages pages
+      else List.drop 243 (pat ++ encPages pages)) = encPages pages := by
+    split
+    · next h => simp [h] at hpat; simp [hpat]
+    · next h => simp [h] at hpat; rw [← hpat]; simp
+  simp only [cm3, read1, h16, h12, bind, Except.bind, pure, Except.pure, hdrop, hpg, hpages]
+
+
+/-- the premises are satisfiable: coding every byte as a literal is valid for every line (both masks
+all ones); `left` and `up` are valid wherever the copied byte happens to be equal -/
+theorem all_literals_valid (row lin : List Nat) (hr : row.length = 160) (hl : lin.length = 160) (hb : ∀ v ∈ row, v < 256) :
+    ValidLine (fun _ => Choice.lit) row lin (List.replicate 20 255) (List.replicate 20 255) := by
+  have hrank : ∀ x, rank (fun _ => Choice.lit) x = x := by
+    intro x
+    induction x with
+    | zero => rfl
+    | succ n ih => rw [rank_succ, ih]; simp
+  have hbit : ∀ x, x < 160 → bufBit (List.replicate 20 255) x = some 1 := by
+    intro x hx
+    have h8 : x / 8 < 20 := by omega
+    have hm : 7 - x % 8 = 0 ∨ 7 - x % 8 = 1 ∨ 7 - x % 8 = 2 ∨ 7 - x % 8 = 3 ∨ 7 - x % 8 = 4 ∨ 7 - x % 8 = 5
+        ∨ 7 - x % 8 = 6 ∨ 7 - x % 8 = 7 := by omega
+    simp only [bufBit, List.getElem?_replicate, h8, if_true, Option.map_some]
+    rcases hm with h | h | h | h | h | h | h | h <;> rw [h] <;> rfl
+  exact { rowLen := hr, linLen := hl, bytes := hb
+          copyLeft := fun _ _ h => by cases h
+          copyUp := fun _ _ h => by cases h
+          mask1 := fun x hx => by simpa using hbit x hx
+          mask2 := fun x hx _ => by rw [hrank]; simpa using hbit x hx }
 
 end CocoVerif.Props.C17
